@@ -357,7 +357,7 @@ def run(tier="quick", seed=0):
             histories = sorted(P.HISTORIES)
             if not thorough:
                 # quick: every probe, the three histories that cover minimisers, placers/routers and objects
-                histories = ["minimise_merging", "objects", "pipeline_mix", "route_other"] + \
+                histories = ["minimise_merging", "objects", "pipeline_mix", "route_other", "place_sizes"] + \
                             [["place_other_graphs"], []][seed % 2]
             fresh = {}
             for p in probes:
